@@ -499,4 +499,29 @@ theorem flatMap_congr' {α β : Type} (f g : α → List β) (ls : List α) (h :
   | cons a r ih =>
     rw [List.flatMap_cons, List.flatMap_cons, h a (by simp), ih (fun l hl => h l (by simp [hl]))]
 
+/-! ## Slice / int assignment, annotation edits -/
+
+theorem assignSlice_nat (xs v : List Nat) (i j : Nat) (hij : i ≤ j) (hj : j ≤ xs.length)
+    (hv : v.length = j - i) :
+    assignSlice xs (i : Int) (j : Int) v = .ok (xs.take i ++ v ++ xs.drop j) := by
+  unfold assignSlice
+  rw [normIdx_nat, normIdx_nat]
+  have h1 : min i xs.length = i := by omega
+  have h2 : min j xs.length = j := by omega
+  rw [h1, h2]
+  have h3 : ¬ (j < i) := by omega
+  simp only [h3, if_false, hv, if_true]
+
+theorem Feature.same_refl (f : Feature) : Feature.same f f = true := by
+  unfold Feature.same
+  simp only [beq_self_eq_true, Bool.true_and, Bool.and_eq_true, List.all_eq_true, List.contains_iff_mem]
+  exact ⟨fun l hl => hl, fun l hl => hl⟩
+
+theorem setSlice_eq (s : ASeq) (a b : Option Int) (v : List Nat) :
+    setSlice s a b v =
+      match assignSlice s.seq ((a.map (· - s.start)).getD 0) ((b.map (· - s.start)).getD (s.seq.length : Int)) v with
+      | .error e => .error e
+      | .ok seq' => .ok { s with seq := seq' } := by
+  cases a <;> cases b <;> rfl
+
 end BiotiteModel.C13
